@@ -39,10 +39,11 @@ def check(ctx: Ctx) -> None:
            detail=str(sorted(res.get(("ret", None), []))))
     for r in ctx.distinct_sites(ctx.nodes(aenter, lambda n: n.op == "return")):
         v = r.ast.value
-        ok = isinstance(v, ast.Await) and any(g.ast is v for g in gets)
+        syn = ctx.an.await_syn  # `c = self.get(); await c` is represented by one stand-in await expression per site
+        ok = isinstance(v, ast.Await) and any(g.ast is v or syn.get(id(v)) is g.ast for g in gets)
         if not ok and isinstance(v, ast.Name):
             rv = ctx.vals.resolve(aenter, v)  # also `item: _T = await self.get()`
-            ok = isinstance(rv, ast.Await) and any(g.ast is rv for g in gets)
+            ok = isinstance(rv, ast.Await) and any(g.ast is rv or syn.get(id(rv)) is g.ast for g in gets)
         rep.ob("R20.1", "the block receives the item that was taken", ok, node=r)
     others = ctx.nodes(aenter, lambda n: n.suspends and n not in gets)
     rep.ob("R20.1", "__aenter__ has no other suspension step (an item taken is always handed to the block)", not others, func=aenter, construct=others[0] if others else "only the get suspends")
